@@ -267,6 +267,10 @@ def resize_cases(draw, P):
         program.append(o2)
     if uses_gate:
         program.append([["sleep", draw(st.sampled_from([1e-3, 0.4, 3.0, 20.0]))], ["open_gate", 0]])
+    if P["max_faults"] and draw(st.integers(0, 4)) == 0:
+        # a worker (typically an idle one of the old pool) is killed from outside at some instant of the history
+        program.append([["sleep", draw(st.sampled_from([1e-3, 1e-3, 0.3, 2.0]))],
+                        ["kill", draw(st.integers(0, P["max_workers"] + 1)), draw(st.sampled_from([-9, -11]))]])
     return {"config": cfg, "program": program, "schedule": draw(schedules(P)),
             "faults": draw(fault_lists(P, dict(cfg, max_workers=P["max_workers"]))) if P["max_faults"] else []}
 
